@@ -99,6 +99,49 @@ pub fn replay(_sc: &Value) -> Value {
     json!({"violations": viol, "log": log})
 }
 
+/// A later set must never disturb a completed one - not even transiently. The losing setter's value is dropped inside
+/// `set`; its sink parks in `Drop`, which holds the loser wherever the implementation drops the value, and the holder
+/// is read meanwhile.
+pub fn replay_loser_window(_sc: &Value) -> Value {
+    static DROP_PARKED: AtomicBool = AtomicBool::new(false);
+    static DROP_RELEASE: AtomicBool = AtomicBool::new(false);
+    struct ParkOnDrop;
+    impl MetricSink for ParkOnDrop {
+        fn emit(&self, _m: &str) -> io::Result<usize> {
+            Ok(0)
+        }
+    }
+    impl Drop for ParkOnDrop {
+        fn drop(&mut self) {
+            DROP_PARKED.store(true, Ordering::SeqCst);
+            let t = Instant::now();
+            while !DROP_RELEASE.load(Ordering::SeqCst) && t.elapsed() < Duration::from_secs(10) {
+                std::thread::yield_now();
+            }
+        }
+    }
+    let seen: Arc<Mutex<Vec<&'static str>>> = Arc::new(Mutex::new(vec![]));
+    let mut viol: Vec<Value> = vec![];
+    cadence_macros::set_global_default(StatsdClient::from_sink("a", TagSink { tag: "a", seen: seen.clone() }));
+    let before = which_client(&seen);
+    let loser = std::thread::spawn(|| cadence_macros::set_global_default(StatsdClient::from_sink("b", ParkOnDrop)));
+    let t = Instant::now();
+    while !DROP_PARKED.load(Ordering::SeqCst) && t.elapsed() < Duration::from_secs(5) {
+        std::thread::yield_now();
+    }
+    let parked = DROP_PARKED.load(Ordering::SeqCst);
+    let is_set_during = cadence_macros::is_global_default_set();
+    let during = which_client(&seen);
+    DROP_RELEASE.store(true, Ordering::SeqCst);
+    let _ = loser.join();
+    let after = which_client(&seen);
+    let log = format!("after set(a): {:?}; while a losing set(b) was dropping its client (reached: {}): is_set = {}, get = {:?}; afterwards: {:?}", before, parked, is_set_during, during, after);
+    if before != Some("a") || during != Some("a") || !is_set_during || after != Some("a") {
+        viol.push(json!({"prop": "C18", "clause": "stays-set", "detail": format!("a later set disturbed the completed one: {}", log)}));
+    }
+    json!({"violations": viol, "log": log})
+}
+
 /// Sequential history: set(a); set(b); reads. The first set wins and later sets never disturb it.
 pub fn replay_seq(_sc: &Value) -> Value {
     let seen: Arc<Mutex<Vec<&'static str>>> = Arc::new(Mutex::new(vec![]));
